@@ -294,6 +294,11 @@ func (ex *Exec) callFuncInner(p *Path, fn *types.Func, recv *Value, args []Value
 			return ex.havocCall(p, fn, !pure)
 		}
 		ex.note("call to %s at %s abstracted (recursive or too deep): results havocked", key, ex.w.pos(pos))
+		if ex.contract != nil && ex.contract.Decreases != nil && !ex.inContract() && ex.w.onCallCycle(full) {
+			// a helper on the unit's call cycle that could not be inlined: its recursive calls are not seen, so the
+			// termination argument has a hole
+			ex.addObl(p, fmt.Sprintf("%s#decreases@%s", ex.funcKey, ex.siteLabel(pos)), "decreases", "call to "+key+" (on a call cycle, no measure, not inlinable)", "false", pos, "call to "+key)
+		}
 		return ex.havocCall(p, fn, true)
 	}
 	sig := fn.Type().(*types.Signature)
@@ -402,6 +407,13 @@ func (ex *Exec) observerCall(p *Path, fn *types.Func, full string, recv *Value, 
 		f := ex.c.Fun(name+"/"+strings.Join(mapStr(sorts, sortToken), ","), sorts, ex.c.SortOf(rt))
 		v := Value{app(f, terms...), rt}
 		ex.assumeFact(p, ex.c.typeInvariant(v))
+		if recv != nil && ex.c.SortOf(recv.Ty) == "Ref" && strings.HasPrefix(fn.Name(), "Get") && len(args) == 0 && ex.isGeneratedGetter(fn) && !ex.w.IsRepoFunc(fn) {
+			if _, isPtr := recv.Ty.Underlying().(*types.Pointer); isPtr {
+				// protoc-gen-go getters are nil-receiver safe: on a nil message they return the zero value
+				ex.c.Trust("protoc-gen-go getters (Get*) return the zero value on a nil receiver")
+				ex.assumeFact(p, implies(eq(recv.T, "null"), eq(v.T, ex.c.Zero(rt))))
+			}
+		}
 		out = append(out, v)
 	}
 	return out
@@ -478,9 +490,11 @@ func (ex *Exec) tryInline(p *Path, fi *FuncInfo, recv *Value, args []Value, pos 
 	loopOrd := ex.loopOrd
 	defer func() {
 		if r := recover(); r != nil {
-			if _, isUnsupp := r.(unsupported); !isUnsupp {
+			u, isUnsupp := r.(unsupported)
+			if !isUnsupp {
 				panic(r)
 			}
+			ex.note("inlining %s failed: %s (%s)", shortKey(fi.Obj), u.msg, ex.w.pos(u.pos))
 			*p = *backup
 			// drop obligations recorded inside the failed inline
 			for _, name := range ex.oblOrder[nObl:] {
@@ -617,9 +631,8 @@ func (ex *Exec) mergeWithRets(a *Path, av []Value, b *Path, bv []Value, n int) (
 // tryMergeLoose is tryMerge but tolerates heap keys present on one side only by materialising the base array.
 func (ex *Exec) tryMergeLoose(a, b *Path) *Path {
 	if a.heapGen != b.heapGen {
-		// different havoc generations: bring both to a common fresh generation is not possible
-		// without losing facts; refuse
-		return nil
+		// different havoc generations: tryMerge moves both to a common fresh generation
+		return ex.tryMerge(a, b)
 	}
 	for k, t := range a.heap {
 		if _, ok := b.heap[k]; !ok {
@@ -867,7 +880,7 @@ func (ex *Exec) applyContract(p *Path, c *Contract, fn *types.Func, recv *Value,
 		p.entry = saveEntry
 	}()
 	// recursion: termination measure
-	if ex.fi != nil && len(ex.inlineStack) == 0 && ex.contract != nil && c.Decreases != nil &&
+	if ex.fi != nil && ex.contract != nil && c.Decreases != nil &&
 		(shortKey(ex.fi.Obj) == c.Key || ex.mutualGroup[c.Key]) && ex.contract.Decreases != nil {
 		callee := ex.evalClause(p, c.Decreases.E, false)
 		// caller's measure at entry
